@@ -23,6 +23,7 @@ func genBlocks(c *Ctx) (string, string, error) {
 		where      string
 		cv         string
 		migs       []string
+		blocker    []string // calls of the package-level BeginBlocker / EndBlocker functions (deferred telemetry aside)
 	}
 	var rows []row
 	for _, p := range c.Pkgs {
@@ -35,6 +36,29 @@ func genBlocks(c *Ctx) (string, string, error) {
 		for _, f := range p.Syntax {
 			for _, d := range f.Decls {
 				fd, ok := d.(*ast.FuncDecl)
+				if ok && fd.Recv == nil && fd.Body != nil && (fd.Name.Name == "BeginBlocker" || fd.Name.Name == "EndBlocker") {
+					for _, st := range fd.Body.List {
+						switch x := st.(type) {
+						case *ast.DeferStmt:
+							var sb strings.Builder
+							_ = printer.Fprint(&sb, p.Fset, x.Call.Fun)
+							if !strings.HasPrefix(sb.String(), "telemetry.") {
+								return "", "", fmt.Errorf("x/%s %s defers %s", mod, fd.Name.Name, sb.String())
+							}
+						case *ast.ExprStmt:
+							call, isCall := x.X.(*ast.CallExpr)
+							if !isCall {
+								return "", "", fmt.Errorf("x/%s %s: a statement that is not a call", mod, fd.Name.Name)
+							}
+							var sb strings.Builder
+							_ = printer.Fprint(&sb, p.Fset, call.Fun)
+							r.blocker = append(r.blocker, fd.Name.Name+":"+sb.String())
+						case *ast.ReturnStmt:
+						default:
+							return "", "", fmt.Errorf("%s:%d: x/%s %s does more than call the keeper's block routine (%T)", c.Rel(p.Fset.Position(st.Pos()).Filename), p.Fset.Position(st.Pos()).Line, mod, fd.Name.Name, st)
+						}
+					}
+				}
 				if ok && fd.Recv != nil && fd.Name.Name == "ConsensusVersion" && fd.Body != nil && len(fd.Body.List) == 1 {
 					if rs, ok := fd.Body.List[0].(*ast.ReturnStmt); ok && len(rs.Results) == 1 {
 						if bl, ok := rs.Results[0].(*ast.BasicLit); ok {
@@ -138,6 +162,17 @@ func genBlocks(c *Ctx) (string, string, error) {
 			b.WriteString(";\n   ")
 		}
 		fmt.Fprintf(&b, "(%s, (%s, %s))", CoqString(r.module), r.cv, CoqList(r.migs))
+	}
+	b.WriteString("].\n\n(* (module, calls of its package-level BeginBlocker / EndBlocker, deferred telemetry aside) *)\nDefinition blocker_calls : list (string * list string) :=\n  [")
+	for i, r := range rows {
+		if i > 0 {
+			b.WriteString(";\n   ")
+		}
+		var o []string
+		for _, x := range r.blocker {
+			o = append(o, CoqString(x))
+		}
+		fmt.Fprintf(&b, "(%s, %s)", CoqString(r.module), CoqList(o))
 	}
 	b.WriteString("].\n")
 	return "BlockRoutines.v", b.String(), nil
